@@ -308,6 +308,10 @@ func (m *Model) Prepare(op Op, now time.Time) (Call, bool) {
 		if op.Tgt == "plain" {
 			return c, true
 		}
+		if op.Tgt == "ack-seek-ack" {
+			c.Time = now.Add(-1000 * time.Hour)
+			return c, true
+		}
 		ids, ok := m.selectIDs(s, op.Sel)
 		c.AckIDs = ids
 		return c, ok
